@@ -1,8 +1,9 @@
 CONSTANTS
     PartsId = 1
-    MaxCalls = 4
-    SrcLens = {0, 1, 9, 10, 11, 14}
+    MaxCalls = 6
+    SrcLens = {0, 1, 9, 10, 11, 13}
     Mutant = 0
+    Side = "w"
     Emit = TRUE
 SPECIFICATION Spec
 INVARIANT TypeOK
